@@ -90,4 +90,20 @@ func init() {
 			return js
 		},
 	})
+	register(&Plan{
+		Prop:  "C02",
+		Level: "exploration",
+		Rule: "cases = (format, flag subset, logger level, 1-3 destinations per class + optional per-level writer + decoys, root or child, entry point among 25 verbs / Context verbs / LogAttrs / Logit / package functions / six Println forms / blank Print, " +
+			"free-form argument list of 0-2000 items: key/value pairs of every kind, typed nils, non-string keys, dangling keys, reserved and empty keys, Attr, Attrs, []Attr with nil members, user-defined Attr, groups nested to depth 13, empty groups; message of any bytes up to ~200 kB). " +
+			"Oracle: escaping panic = violation; per-writer Write counts == the selected destinations iff admitted, else zero everywhere; every payload is one whole record (newline-terminated, carries the call id exactly once, JSON valid / logfmt starts time= on one line / colored starts with the timestamp colour); blank Print/Println == exactly one newline byte. " +
+			"non-trivial = every judged call; distinct = by case index (PRNG stream)",
+		Assumptions: []string{"values whose own methods panic and cyclic values are not generated", "admission by the C01 rule, destination selection by the C03 model"},
+		Floors:      map[string]int64{"calls_admitted": 500, "calls_not_admitted_silent": 100, "records_delivered_whole": 500},
+		Jobs: func(tier string, seed int64) []Job {
+			n := pick(tier, 8000, 400000)
+			js := chunk("main", "prod", n, pick(tier, 500, 12500), Job{Timeout: 30 * time.Minute})
+			js = append(js, chunk("main", "test", n/4, pick(tier, 500, 12500), Job{Timeout: 30 * time.Minute})...)
+			return js
+		},
+	})
 }
